@@ -283,6 +283,23 @@ impl io::Read for Dribble<'_> {
     }
 }
 
+/// A sink that accepts at most `k` bytes per `write` call.
+struct DribbleW {
+    buf: Vec<u8>,
+    k: usize,
+}
+
+impl io::Write for DribbleW {
+    fn write(&mut self, b: &[u8]) -> io::Result<usize> {
+        let n = b.len().min(self.k);
+        self.buf.extend_from_slice(&b[..n]);
+        Ok(n)
+    }
+    fn flush(&mut self) -> io::Result<()> {
+        Ok(())
+    }
+}
+
 impl Runner {
     /// Decode one record; on success also re-encode it and compare with the bytes consumed.
     fn do_dec(&mut self, bs: &[u8], k: usize) {
@@ -1320,6 +1337,19 @@ impl Runner {
                 self.dump = None;
                 self.emit("dumpdrop");
             }
+            ["encw", k, rec @ ..] => match (k.parse::<usize>(), parse_record(rec)) {
+                // encode into a sink that takes at most k bytes per write call
+                (Ok(k), Some(r)) if k > 0 => {
+                    let mut w = DribbleW { buf: vec![], k };
+                    match catch_unwind(AssertUnwindSafe(|| r.encode(&mut w))) {
+                        Ok(Ok(n)) if n == w.buf.len() => self.emit(&format!("enc {}", hex(&w.buf))),
+                        Ok(Ok(n)) => self.emit(&format!("enc size-mismatch {} {}", n, w.buf.len())),
+                        Ok(Err(_)) => self.emit("enc err"),
+                        Err(_) => self.emit("enc panic"),
+                    }
+                }
+                _ => self.emit("bad-op"),
+            },
             ["enc", rec @ ..] => match parse_record(rec) {
                 Some(r) => {
                     let mut bs = vec![];
